@@ -67,7 +67,7 @@ func c02FlipBit(v *big.Int, i int) *big.Int {
 func c02Run(t *testing.T, sub, keyA, keyB string, maxLen int, bitStride int, qb, tb time.Duration) {
 	r := vkit.Start(t, "C02", sub, qb, tb)
 	defer r.Finish()
-	r.Rule = "compositions of 1..4 builders and one of 7 (more than 40 challenge contributions) (disclosure, +nonrev, +range, issuance, +blind) over 1-2 keys x both session kinds; neighbours: every single-bit flip (stride s) of context and nonce, +-1, 0, swapped, flag flipped, every key permutation/substitution, every list permutation (keys alike or not), every proper sub-list (for the long list: neighbour transpositions, end swap, reversal; prefixes, suffixes, one member dropped), every duplication, every splice with a list of another session, empty list; also each ProofD/ProofU singly; non-trivial = neighbour that differs from (T,L) by value; oracle: accepted iff unchanged; the caller's context and nonce objects are unchanged by verification"
+	r.Rule = "compositions of 1..4 builders and one of 7 (more than 40 challenge contributions) (disclosure, +nonrev, +range, issuance, +blind) over 1-2 keys x both session kinds; neighbours: every single-bit flip (stride s) of context and nonce, +-1, 0, swapped, flag flipped, every key permutation/substitution, every list permutation (keys alike or not), every proper sub-list (for the long list: neighbour transpositions, end swap, reversal; prefixes, suffixes, one member dropped), every duplication, every splice with a list of another session, members that cannot be reconstructed spliced in next to the member they copy, empty list; also each ProofD/ProofU singly; non-trivial = neighbour that differs from (T,L) by value; oracle: accepted iff unchanged; the caller's context and nonce objects are unchanged by verification"
 	vfInstallEnv(t, "C02/"+sub, r.Seed)
 	secrets := []*big.Int{vfTag("c02-secret")}
 	r.Bounds["bit_stride"] = bitStride
@@ -261,6 +261,38 @@ func c02Run(t *testing.T, sub, keyA, keyB string, maxLen int, bitStride int, qb,
 				sp[i] = L2[i]
 				try(fmt.Sprintf("spliced from other session:%d", i), true, sp, pks, ctx, nonce, issig)
 				try(fmt.Sprintf("spliced, other session's nonce:%d", i), n > 1, sp, pks, ctx, nonceB, issig)
+			}
+			// members that cannot be reconstructed (index both disclosed and hidden; key with too few bases),
+			// spliced in before / after a member they copy challenge and responses from
+			for i := 0; i < n; i++ {
+				d, isD := L[i].(*ProofD)
+				if !isD {
+					continue
+				}
+				for _, before := range []bool{true, false} {
+					ins := func(extra Proof, key *gabikeys.PublicKey) (ProofList, []*gabikeys.PublicKey) {
+						at := i
+						if !before {
+							at = i + 1
+						}
+						pl := append(append(append(ProofList{}, L[:at]...), extra), L[at:]...)
+						ks := append(append(append([]*gabikeys.PublicKey{}, pks[:at]...), key), pks[at:]...)
+						return pl, ks
+					}
+					forged := vsCloneProof(d).(*ProofD)
+					for idx, resp := range forged.AResponses {
+						if idx != 0 {
+							forged.ADisclosed[idx] = vfCopy(resp) // now both disclosed and hidden
+							break
+						}
+					}
+					pl, ks := ins(forged, pks[i])
+					try(fmt.Sprintf("unreconstructible copy of member spliced in (before=%v):%d", before, i), true, pl, ks, ctx, nonce, issig)
+					short := vfFreshPk(&vfKey{Pk: pks[i]})
+					short.R = short.R[:1]
+					pl, ks = ins(vsCloneProof(d), short)
+					try(fmt.Sprintf("duplicate of member under a key with one base (before=%v):%d", before, i), true, pl, ks, ctx, nonce, issig)
+				}
 			}
 			try("other session's list under this nonce", true, L2, pks, ctx, nonce, issig)
 			try("other session's list under its nonce", false, L2, pks, ctx, nonceB, issig)
